@@ -81,7 +81,7 @@ FAMILIES = ["static", "static", "static-so", "static", "swaps", "swaps", "swaps"
 
 def plan(tier):
     classes = ["family:static", "family:static-so", "family:swaps", "family:ofs-opt", "family:ofs-evolve", "stacked",
-               "flat", "conserve_qn:True", "conserve_qn:False", "swap_jw:True", "swap_jw:False", "model:qc", "swap_jw:without-quantum-numbers",
+               "flat", "conserve_qn:True", "conserve_qn:False", "swap_jw:True", "swap_jw:False", "model:qc", "swap_jw:without-quantum-numbers", "qc:complex-hopping",
                "model:spin", "model:vibronic", "spelling:library", "spelling:sigma", "ofs:ofs_s", "ofs:ofs_d",
                "ofs:ofs_ds", "ofs:ofs_debug", "fcidump:4fold", "fcidump:8fold", "swapped-in-optimisation",
                "swapped-in-evolution", "schedule:truncating-sweeps-first", "norb:1", "norb:2", "norb:3"]
@@ -686,13 +686,25 @@ def make_qc_problem(ctx, swap_jw, norb=None, spelling="library", conserve_qn=Tru
         ek = ["lowrank", "sym8", "density-density", "hubbard", "sparse-lowrank", "zero-block"][int(rng.integers(0, 6))]
     h, eri, desc = gen_integrals(rng, norb, h_kind=["dense", "sparse", "dense"][int(rng.integers(0, 3))], eri_kind=ek)
     sh, aseri = ctx.lib(h_qc.int_to_h, h, eri, what="int_to_h")
+    jw_data = ("spatial", h, eri)
+    ref0 = None
+    if rng.random() < 0.3:
+        # complex Hermitian one-electron part (Peierls phases on the hoppings): complex coefficients in the operator
+        nso = len(sh)
+        phi = rng.uniform(0, 2 * np.pi, size=(nso, nso))
+        phi = np.triu(phi, 1)
+        sh = sh.astype(complex) * np.exp(1j * (phi - phi.T))
+        jw_data = ("so", sh, aseri)
+        ref0 = fermi_ref_so(sh, aseri)
+        ctx.cls("qc:complex-hopping")
     basis, terms = ctx.lib(h_qc.qc_model, sh, aseri, conserve_qn=conserve_qn, what="qc_model")
     if spelling == "sigma":
         terms = [rename_sigma(t) for t in terms]
-    ref0 = fermi_ref_spatial(h, eri)
-    desc.update({"h": h, "eri": eri, "spelling": spelling, "conserve_qn": conserve_qn})
+    if ref0 is None:
+        ref0 = fermi_ref_spatial(h, eri)
+    desc.update({"h": h, "eri": eri, "spelling": spelling, "conserve_qn": conserve_qn, "complex_hopping": jw_data[0] == "so"})
     ctx.cls(f"norb:{norb}", "eri:" + desc["eri_kind"], f"conserve_qn:{conserve_qn}", "spelling:" + spelling)
-    prob = Problem("qc", basis, terms, swap_jw, ref0, ("spatial", h, eri), desc)
+    prob = Problem("qc", basis, terms, swap_jw, ref0, jw_data, desc)
     prob.key = int_key(h, eri)
     return prob
 
@@ -892,6 +904,8 @@ def case_ofs_opt(ctx):
         model = Model(list(prob.basis), list(prob.terms))
         mpo = ctx.lib(Mpo, model, what="Mpo")
         mps = random_start(ctx, model, qntot, M, seed_start)
+        if mpo.is_complex and not mps.is_complex:
+            mps.to_complex(inplace=True)        # a real Mps cannot hold the tensors of a complex problem (Matrix asserts)
         o, jw = (ofs, prob.swap_jw) if with_ofs else (None, False)
         mps.optimize_config.procedure = [[ofs_config(m, o, jw), p] for m, p in schedule]
         mps.optimize_config.method = "2site"
